@@ -10,7 +10,10 @@ import sys
 import threading
 import types
 
-import z3
+try:
+    import z3
+except ImportError:      # replays run under the repository's interpreter, without z3
+    z3 = None
 
 from . import frontend
 from .frontend import FuncInfo, funcinfo_of, funcinfo_of_code, is_interpretable_file
@@ -446,6 +449,9 @@ class Interp:
         # native bound method of a container: data-structure operations do not inspect elements
         selfobj = getattr(f, '__self__', None)
         name = getattr(f, '__name__', None)
+        if isinstance(selfobj, str) and (any(contains_sym(a) for a in args)):
+            from . import strings
+            return strings.call_method(self, SStr(z3.StringVal(selfobj)), name, args, kwargs)
         if selfobj is not None and not isinstance(selfobj, types.ModuleType):
             if (type(selfobj), name) in _SAFE_NATIVE_METHODS:
                 if type(selfobj) is dict and name in ('get', 'pop', 'setdefault', '__contains__') and args \
@@ -722,7 +728,8 @@ class Interp:
                 return wrap(x - y * q)
             raise Unsupported('integer operator %s on symbolic value' % opcls.__name__)
         if isinstance(a, (SStr, str)) and isinstance(b, (SStr, str)) and opcls is ast.Add:
-            return wrap(z3.Concat(to_z3(a), to_z3(b)))
+            from . import strings
+            return strings.concat(self, a, b)
         if isinstance(a, (SStr, str)) and opcls is ast.Mod:
             return SStr(self.st.fresh_str('fmt'))
         if isinstance(a, SList) or isinstance(b, SList):
@@ -770,6 +777,9 @@ class Interp:
                     tb = to_z3(b) if kb == 'int' else z3.If(to_z3(b), 1, 0)
                     return wrap(ta == tb)
                 return False
+            if ka == 'str':
+                from . import strings
+                return wrap(strings.norm(self, to_z3(a)) == strings.norm(self, to_z3(b)))
             return wrap(to_z3(a) == to_z3(b))
         if isinstance(a, (tuple, list)) and type(a) is type(b) and (contains_sym(a, 3) or contains_sym(b, 3)):
             if len(a) != len(b):
@@ -881,7 +891,8 @@ class Interp:
             container = self.resolve(container)
         if isinstance(container, (SStr, str)) and isinstance(x, (SStr, str)) and \
                 (isinstance(container, SStr) or isinstance(x, SStr)):
-            return wrap(z3.Contains(to_z3(container), to_z3(x)))
+            from . import strings
+            return wrap(z3.Contains(strings.norm(self, to_z3(container)), strings.norm(self, to_z3(x))))
         if isinstance(container, SList):
             from . import models
             return models.slist_contains(self, container, x)
